@@ -24,7 +24,7 @@ PLANS['C12'] = [('sem', W(60000, 4000000, batch=1000)),
 PLANS['C16'] = [('defer', W(60000, 3000000, batch=1000)),
                 ('world', W(12000, 500000, gen_prop='C16'))]
 PLANS['C13'] = [('bw', W(60000, 3000000, batch=1000)),
-                ('world', W(12000, 400000, gen_prop='C13'))]
+                ('world', W(5000, 300000, gen_prop='C13'))]
 PLANS['C19'] = [('pp', W(40000, 2000000, batch=500))]
 PLANS['C02'].append(('pp', W(10000, 400000, batch=500)))
 PLANS['C06'].append(('pp', W(10000, 400000, batch=500)))
